@@ -73,6 +73,30 @@ func pow2ceil(x float64) float64 {
 
 var intervalDepth int
 
+// context of an inter-procedural step of the interval analysis: what the call site knows about the callee's parameters
+// (the interval of a number argument, the function a function-valued argument is)
+var (
+	intervalParamItv = map[*ssa.Parameter]itv{}
+	intervalParamFn  = map[*ssa.Parameter]*ssa.Function{}
+)
+
+// staticFuncValue: v is a function known at this point (a function, or a closure that captures nothing).
+func staticFuncValue(v ssa.Value) *ssa.Function {
+	switch x := v.(type) {
+	case *ssa.Function:
+		return x
+	case *ssa.MakeClosure:
+		if f, ok := x.Fn.(*ssa.Function); ok && len(x.Bindings) == 0 {
+			return f
+		}
+	case *ssa.ChangeType:
+		return staticFuncValue(x.X)
+	case *ssa.Parameter:
+		return intervalParamFn[x]
+	}
+	return nil
+}
+
 // intervals runs the analysis to a fixpoint with widening at phis.
 func intervals(fn *ssa.Function) *intervalResult {
 	res := &intervalResult{vals: map[ssa.Value]itv{}, overflow: map[ssa.Instruction]string{}}
@@ -88,6 +112,11 @@ func intervals(fn *ssa.Function) *intervalResult {
 		}
 		if x, ok := res.vals[v]; ok {
 			return x
+		}
+		if p, isParam := v.(*ssa.Parameter); isParam {
+			if x, ok := intervalParamItv[p]; ok {
+				return x
+			}
 		}
 		if _, isInstr := v.(ssa.Instruction); isInstr {
 			return itv{bottom: true}
@@ -250,10 +279,52 @@ func intervals(fn *ssa.Function) *intervalResult {
 				case *ssa.Return:
 				case *ssa.Call:
 					// a helper of the same package: use the interval of what it returns (parameters at their type ranges)
-					if callee := in.Call.StaticCallee(); callee != nil && ssaPkgOf(callee) == ssaPkgOf(fn) && callee.Blocks != nil && callee != fn && intervalDepth < 4 && callee.Signature.Results().Len() == 1 {
+					callee := in.Call.StaticCallee()
+					if callee == nil && !in.Call.IsInvoke() {
+						callee = staticFuncValue(in.Call.Value) // a function handed in by the caller (fold(data, init, step))
+					}
+					if callee != nil && ssaPkgOf(callee) == ssaPkgOf(fn) && callee.Blocks != nil && callee != fn && intervalDepth < 4 && callee.Signature.Results().Len() == 1 {
+						// what this call site knows about the callee's parameters
+						savedI, savedF := map[*ssa.Parameter]itv{}, map[*ssa.Parameter]*ssa.Function{}
+						for i, a := range in.Call.Args {
+							if i >= len(callee.Params) {
+								break
+							}
+							p := callee.Params[i]
+							if old, ok := intervalParamItv[p]; ok {
+								savedI[p] = old
+							}
+							if old, ok := intervalParamFn[p]; ok {
+								savedF[p] = old
+							}
+							if _, isNum := typeRange(p.Type()); isNum {
+								if x := get(a); !x.bottom {
+									intervalParamItv[p] = x
+								} else {
+									delete(intervalParamItv, p)
+								}
+							}
+							if f := staticFuncValue(a); f != nil {
+								intervalParamFn[p] = f
+							}
+						}
 						intervalDepth++
 						sub := intervals(callee)
 						intervalDepth--
+						for i := range in.Call.Args {
+							if i >= len(callee.Params) {
+								break
+							}
+							p := callee.Params[i]
+							delete(intervalParamItv, p)
+							delete(intervalParamFn, p)
+							if old, ok := savedI[p]; ok {
+								intervalParamItv[p] = old
+							}
+							if old, ok := savedF[p]; ok {
+								intervalParamFn[p] = old
+							}
+						}
 						for k, m := range sub.overflow {
 							res.overflow[k] = m
 						}
@@ -323,6 +394,22 @@ func byteSumOps(fn *ssa.Function) []string {
 				if c, ok := in.(ssa.CallInstruction); ok {
 					if callee := c.Common().StaticCallee(); callee != nil && ssaPkgOf(callee) == ssaPkgOf(fn) {
 						collect(callee)
+					}
+				}
+				// functions handed on as values (the step of a fold) take part in the computation as well
+				for _, op := range in.Operands(nil) {
+					if op == nil || *op == nil {
+						continue
+					}
+					var f *ssa.Function
+					switch x := (*op).(type) {
+					case *ssa.Function:
+						f = x
+					case *ssa.MakeClosure:
+						f, _ = x.Fn.(*ssa.Function)
+					}
+					if f != nil && ssaPkgOf(f) == ssaPkgOf(fn) {
+						collect(f)
 					}
 				}
 			}
